@@ -79,6 +79,17 @@ mpn_dc_divappr_q (mp_ptr qp, mp_ptr np, mp_size_t nn,
      && mpn_cmp(np + nn - qn, dp + dn - qn, qn - 1) >= 0))
      {
         __divappr_helper(qp, np + nn - qn - 2, dp + dn - qn - 1, qn);
+
+        /* Only the top qn limbs were compared: the truncated remainder
+           {np + nn - qn - 2, 3} can be negative here, and then the quotient
+           B^qn - 1 is one too large (two too large for a caller whose
+           dividend is itself a truncated remainder).  Make it B^qn - 2. */
+        if ((mp_limb_signed_t) np[nn - qn] < 0)
+          {
+             qp[0]--;
+             np[nn - qn] += mpn_add_n(np + nn - qn - 2, np + nn - qn - 2, dp + dn - 2, 2);
+          }
+
         return qh;
      }
 
@@ -102,7 +113,7 @@ mpn_dc_divappr_q (mp_ptr qp, mp_ptr np, mp_size_t nn,
 
   TMP_FREE;
 
-  if ((mp_limb_signed_t) cy < 0)
+  while ((mp_limb_signed_t) cy < 0)
   {
       
      qh -= mpn_sub_1(qp + sl, qp + sl, q_orig - sl, 1); /* ensure quotient is not too big */
